@@ -14,7 +14,7 @@ class Mapping:
         self.mirror = mirror
         self.address_range = address_range
         self.mask = mask
-        self.writable = writeable
+        self.writable = bool(writeable)
 
     def physical_address(self, value: int) -> int | None:
         bank = value >> 16
